@@ -274,10 +274,13 @@ int main(int argc, char** argv) {
     FILE* out = fopen(argv[1], "w"); std::string sc = argv[2]; int nseeds = atoi(argv[3]); unsigned long seed0 = strtoul(argv[4], nullptr, 10);
     Stats* st = (Stats*)mmap(nullptr, sizeof(Stats), PROT_READ | PROT_WRITE, MAP_SHARED | MAP_ANONYMOUS, -1, 0); memset(st, 0, sizeof *st);
     vh::Timer tm; static const int dens[8] = {1, 3, 10, 40, -1, -2, -3, -5}; long crashed = 0; std::string tmp = std::string(argv[1]) + ".child"; bool first = true;
+    int only = getenv("VERIF_ONLY") ? atoi(getenv("VERIF_ONLY")) : -1;      // debugging: run one schedule index only
     for (int c0 = 0; c0 < nseeds && st->stuck < 6 && crashed < 4; c0 += 25) {
+        if (only >= 0 && (only < c0 || only >= c0 + 25)) continue;
         crashed += forked_case(tmp.c_str(), out, first, 300, [&] {
             for (int s = c0; s < c0 + 25 && s < nseeds && st->stuck < 6; s++) {
-                TR.begin_exec(); TR.emit("{\"e\":\"Scenario\",\"name\":\"%s\"}", sc.c_str());
+                if (only >= 0 && s != only && !getenv("VERIF_CHUNK")) continue;
+                TR.begin_exec(); TR.emit("{\"e\":\"Scenario\",\"name\":\"%s\",\"s\":%d}", sc.c_str(), s);
                 Scn S0 = make(sc); NT = S0.n; vh::rawstore(g_ready, 0); vh::rawstore(g_done, 0); g_live = 0;
                 tbb::task_arena arena(NT + 1, NT + 1); arena.initialize();
                 tbb::detail::d1::wait_context hwc(1); HWC = &hwc; for (int i = 0; i <= NT; i++) HCTX[i] = new tbb::task_group_context(tbb::task_group_context::isolated);
@@ -289,7 +292,8 @@ int main(int argc, char** argv) {
                     arena.execute([&] { try { if (id == NT) help(id); else S0.role(id); } catch (...) { TR.emit("{\"e\":\"Escaped\",\"t\":%d}", id); } }); });
                 int rc = S.run_random(seed0 + s, 30000000, dens[s % 8]);
                 TR.sched(S.sched_log); st->steps += S.steps; ++st->paths;
-                if (rc != RC_OK) { TR.emit("{\"e\":\"Stuck\",\"rc\":\"%s\"}", rc_name(rc).c_str()); ++st->stuck; S.join_all(); continue; }
+                if (rc != RC_OK && only >= 0) for (int i = 0; i < S.n(); i++) fprintf(stderr, "thread %d state %d pending kind %d addr %p hooks %ld\n", i, S.state(i), S.pending(i).kind, S.pending(i).addr, S.lts[i]->hooks);
+                if (rc != RC_OK) { TR.emit("{\"e\":\"Stuck\",\"rc\":\"%s\"}", rc_name(rc).c_str()); ++st->stuck; S.join_all(); return; }     // a stuck run ends its chunk (parked threads, time budget of the child)
                 S.join_all();
             }
         });
